@@ -137,8 +137,8 @@ func (w *World) doStake(in Intent) {
 
 // MutationFields lists, per event type, the fields the property C14 names.
 var MutationFields = map[string][]string{
-	"TransferToChainEvent":      {"coin", "amount", "fee", "sender", "receiver", "dest_chain", "height", "tx_hash", "type", "shift_coin_amount", "shift_receiver_chain"},
-	"SendToHubEvent":            {"coin", "amount", "sender", "receiver", "height", "tx_hash", "type", "shift_coin_amount"},
+	"TransferToChainEvent":      {"coin", "amount", "fee", "sender", "receiver", "dest_chain", "height", "tx_hash", "type", "shift_coin_amount", "shift_dec_first", "shift_dec_last", "shift_amount_fee"},
+	"SendToHubEvent":            {"coin", "amount", "sender", "receiver", "height", "tx_hash", "type", "shift_coin_amount", "shift_dec_first", "shift_dec_last"},
 	"BatchExecutedEvent":        {"coin", "batch_nonce", "height", "tx_hash", "fee_paid", "fee_payer", "type"},
 	"SignerSetTxExecutedEvent":  {"set_nonce", "height", "tx_hash", "member_addr", "member_power", "type"},
 	"ContractCallExecutedEvent": {"scope", "inval_nonce", "height", "tx_hash", "type"},
@@ -218,9 +218,27 @@ func (w *World) Mutate(chain string, ev mhub2types.ExternalEvent, mut string) mh
 			if c.Amount.BigInt().BitLen() > 255 {
 				return nil
 			}
-		case "shift_receiver_chain":
-			// receiver is hex text, chain id is text: move first char of chain id to the end of receiver
-			return nil
+		case "shift_dec_first", "shift_dec_last":
+			if chain != "minter" {
+				return nil
+			}
+			nc, na, ok := decShift(c.ExternalCoinId, c.Amount, mut == "shift_dec_first")
+			if !ok {
+				return nil
+			}
+			c.ExternalCoinId, c.Amount = nc, na
+		case "shift_amount_fee":
+			// amount and fee are adjacent numbers: "12"|"3" vs "1"|"23"
+			a, f := c.Amount.String(), c.Fee.String()
+			if len(a) < 2 || c.Fee.IsNegative() {
+				return nil
+			}
+			na, ok1 := sdk.NewIntFromString(a[:len(a)-1])
+			nf, ok2 := sdk.NewIntFromString(a[len(a)-1:] + f)
+			if !ok1 || !ok2 {
+				return nil
+			}
+			c.Amount, c.Fee = na, nf
 		default:
 			return nil
 		}
@@ -261,6 +279,15 @@ func (w *World) Mutate(chain string, ev mhub2types.ExternalEvent, mut string) mh
 			if c.Amount.BigInt().BitLen() > 255 {
 				return nil
 			}
+		case "shift_dec_first", "shift_dec_last":
+			if chain != "minter" {
+				return nil
+			}
+			nc, na, ok := decShift(c.ExternalCoinId, c.Amount, mut == "shift_dec_first")
+			if !ok {
+				return nil
+			}
+			c.ExternalCoinId, c.Amount = nc, na
 		default:
 			return nil
 		}
@@ -340,6 +367,33 @@ func (w *World) Mutate(chain string, ev mhub2types.ExternalEvent, mut string) mh
 		return &c
 	}
 	return nil
+}
+
+// decShift moves one decimal digit between a numeric Minter coin id and the amount, in the two ways a
+// concatenation of their decimal renderings could confuse (coin|amount and amount|coin).
+func decShift(coin string, amt sdk.Int, first bool) (string, sdk.Int, bool) {
+	if len(coin) < 2 || amt.IsNegative() {
+		return "", sdk.Int{}, false
+	}
+	for _, c := range coin {
+		if c < '0' || c > '9' {
+			return "", sdk.Int{}, false
+		}
+	}
+	var nc, na string
+	if first { // amount|coin: "1"+"23" == "12"+"3"
+		nc, na = coin[1:], amt.String()+coin[:1]
+	} else { // coin|amount: "23"+"1" == "2"+"31"
+		nc, na = coin[:len(coin)-1], coin[len(coin)-1:]+amt.String()
+	}
+	if nc[0] == '0' && len(nc) > 1 {
+		return "", sdk.Int{}, false
+	}
+	v, ok := sdk.NewIntFromString(na)
+	if !ok {
+		return "", sdk.Int{}, false
+	}
+	return nc, v, true
 }
 
 func eventTypeName(ev mhub2types.ExternalEvent) string {
